@@ -376,7 +376,12 @@ func (w *World) nodesD(g *FG, ev Ev, must bool, depth int) []bool {
 		}
 		if !must {
 			// literal closures passed as arguments may be called synchronously by the callee
-			for _, a := range c.Args {
+			// (not by Scheduler.Schedule: its implementations are checked to run it on another goroutine, C02.R3)
+			args := c.Args
+			if w.evSchedule().M(in) {
+				args = nil
+			}
+			for _, a := range args {
 				if mc, ok := a.(*ssa.MakeClosure); ok {
 					if f, ok := mc.Fn.(*ssa.Function); ok && f.Parent() != nil && w.mayDo(f, ev, depth+1) {
 						return true
